@@ -139,6 +139,9 @@ class ShiftedServer(QueuedResource):
         # On first real event, schedule the first shift change
         if not self._initialized:
             self._initialized = True
+            # Shift boundaries that passed before the first item arrived were never
+            # processed: take the capacity of the shift that is running now.
+            self._current_capacity = self.schedule.capacity_at(self.now.to_seconds())
             next_event = self._schedule_next_shift()
             result = super().handle_event(event)
             if next_event and isinstance(result, list):
